@@ -15,7 +15,7 @@ RULE = ('pure part: every list of <=L patterns (with repetition, so every '
         'positive never deselects (when a positive is already present)". '
         'end-to-end part: worlds with 5 tests in 3 layers run with every list '
         'of <=2 -t patterns / --layer patterns from a menu; executed tests and '
-        'layers must be exactly those the spec accepts. non-trivial = list '
+        'layers must be exactly those the spec accepts; the -t lists also together with 12 spellings of the level options on a world with levels 1..3. non-trivial = list '
         'contains >=1 negated or >=2 patterns')
 ASSUMPTIONS = [
     'names are non-empty (test ids, module and layer names cannot be empty)',
@@ -97,6 +97,14 @@ def cases(tier, seed):
                 continue
             for mode in ('seq', 'j2', 'j3'):
                 yield ['e2e_child', mode, list(lst)]
+    # the test filter together with every spelling of the level options: the
+    # selection is the conjunction (a level option must not switch -t off)
+    for lv in LEVEL_VECTORS:
+        for lst in ([p] for p in ('q1', '!q1 ', 'q2', '^test_q1 ', 'nomatch', '')):
+            yield ['e2e_level', lv, lst]
+        for lst in (['q1', '!q10'], ['q0|q10', 'q2'], ['!q2', '!q0']):
+            yield ['e2e_level', lv, lst]
+        yield ['e2e_level_positional', lv, ['q1']]
     # --module (and multi-pattern --test) end to end on modules discovered on
     # disk: shared with C03's real-discovery worlds
     yield from _m_cases()
@@ -151,6 +159,32 @@ TID = {t['n']: 'test_%s (vtw.tests.T_%s.test_%s)' % (t['n'], t['n'], t['n'])
        for t in WORLD['tests']}
 LNAME = {None: 'zope.testrunner.layer.UnitTests', 'A': 'vtw.tests.A',
          'AB': 'vtw.tests.AB'}
+
+
+LEVEL_VECTORS = [['--at-level', '0'], ['--at-level=-1'], ['-a', '0'], ['-a', '1'], ['-a', '2'], ['-a3'],
+                 ['--all'], ['--only-level', '1'], ['--only-level', '2'], ['--all', '--at-level', '2'],
+                 ['--at-level', '2', '--all'], []]
+LV_WORLD = dict(WORLD, tests=[dict(t, lv={'q0': None, 'q1': 2, 'q10': 1, 'q2': 3, 'q21': 2, 'q3': None}[t['n']])
+                              for t in WORLD['tests']])
+LV = {t['n']: (t['lv'] or 1) for t in LV_WORLD['tests']}
+
+
+def _level_ok(lv_argv, lvl):
+    """the level rule as C09 states it (refmodel): --only-level N: exactly N;
+    --all (wherever it stands) or a level <= 0: everything; else levels <= N"""
+    from vt import refmodel
+    norm = []
+    for a in lv_argv:
+        if a == '-a':
+            norm.append('--at-level')
+        elif a.startswith('-a') and len(a) > 2 and not a.startswith('--'):
+            norm += ['--at-level', a[2:]]
+        else:
+            norm.append(a)
+    o = refmodel.parse_filters(norm)
+    if o['only'] is not None:
+        return lvl == o['only']
+    return o['all'] or o['at'] <= 0 or lvl <= o['at']
 
 
 class _Raises:
@@ -262,6 +296,23 @@ def run_case(case):
             viol.append({'clause': 'e2e_selection', 'sig': {'opt': '--layer', 'mode': mode},
                          'detail': 'argv=%s ran=%s spec selects %s (failed=%s errors=%s)' % (argv, ran, want, res.failed, res.errors)})
         return {'nontrivial': True, 'violations': viol, 'outcome': ('child', len(ran))}
+    if case[0] in ('e2e_level', 'e2e_level_positional'):
+        _, lv_argv, lst = case
+        if case[0] == 'e2e_level':
+            argv = list(lv_argv) + [x for p in lst for x in ('-t', p)]
+        else:
+            argv = list(lv_argv) + ['.', lst[0]]
+        res = runrt.run_world(LV_WORLD, argv)
+        ran = sorted({ev[2] for ev in res.trace if ev[1] == 't' and ev[3] == 'body'})
+        want = sorted(n for n in TID if spec_accept(lst, TID[n]) and _level_ok(lv_argv, LV[n]))
+        viol = []
+        sig = {'opt': 'level+test', 'lv': ' '.join(lv_argv)}
+        if res.escaped:
+            viol.append({'clause': 'run_aborted', 'sig': sig, 'detail': '%s\n%s' % (argv, res.escaped_tb)})
+        elif ran != want:
+            viol.append({'clause': 'e2e_selection', 'sig': sig,
+                         'detail': 'argv=%s ran=%s; the patterns and the level rule select %s' % (argv, ran, want)})
+        return {'nontrivial': True, 'violations': viol, 'outcome': ('level', len(lv_argv), len(ran))}
     if case[0] == 'e2e_defaults':
         _, how, lst = case
         if how == 'defaults+option':
